@@ -127,6 +127,10 @@ pub struct Cfg {
     /// 4 http_only, 5 same_site, 6 kind); the fields above then already hold the documented defaults
     #[serde(default)]
     pub cookie_serde_omit: Option<u8>,
+    /// the server-side records live in the bundled SQLite store (`sqlite::memory:`, one pooled
+    /// connection, real sqlx worker thread) instead of the in-memory store
+    #[serde(default)]
+    pub sqlite: bool,
 }
 
 #[derive(Serialize, Deserialize, Clone, Debug, PartialEq)]
@@ -156,10 +160,59 @@ struct FaultPlan {
     log: Vec<String>,
 }
 
+/// The real backend under the fault-injecting wrapper.
+#[derive(Debug, Clone)]
+enum Inner {
+    Mem(InMemorySessionStore),
+    Sql(Arc<pavex_session_sqlx::SqliteSessionStore>),
+}
+
+macro_rules! inner_call {
+    ($self:expr, $m:ident ( $($a:expr),* )) => {
+        match $self {
+            Inner::Mem(s) => s.$m($($a),*).await,
+            Inner::Sql(s) => s.$m($($a),*).await,
+        }
+    };
+}
+
+impl Inner {
+    async fn create(&self, id: &SessionId, record: SessionRecordRef<'_>) -> Result<(), CreateError> {
+        inner_call!(self, create(id, record))
+    }
+    async fn update(&self, id: &SessionId, record: SessionRecordRef<'_>) -> Result<(), UpdateError> {
+        inner_call!(self, update(id, record))
+    }
+    async fn update_ttl(&self, id: &SessionId, ttl: Duration) -> Result<(), UpdateTtlError> {
+        inner_call!(self, update_ttl(id, ttl))
+    }
+    async fn load(&self, id: &SessionId) -> Result<Option<SessionRecord>, LoadError> {
+        inner_call!(self, load(id))
+    }
+    async fn delete(&self, id: &SessionId) -> Result<(), DeleteError> {
+        inner_call!(self, delete(id))
+    }
+    async fn change_id(&self, old: &SessionId, new: &SessionId) -> Result<(), ChangeIdError> {
+        inner_call!(self, change_id(old, new))
+    }
+    async fn delete_expired(&self, b: Option<NonZeroUsize>) -> Result<usize, DeleteExpiredError> {
+        inner_call!(self, delete_expired(b))
+    }
+}
+
 #[derive(Debug, Clone)]
 struct FaultyStore {
-    inner: InMemorySessionStore,
+    inner: Inner,
     plan: Arc<Mutex<FaultPlan>>,
+    /// signalled when a call is stalled for good (the driver of the SQLite arm awaits it)
+    stalled: Arc<tokio::sync::Notify>,
+}
+
+impl FaultyStore {
+    async fn stall<T>(&self) -> T {
+        self.stalled.notify_one();
+        std::future::pending().await
+    }
 }
 
 enum Gate {
@@ -196,42 +249,42 @@ impl SessionStorageBackend for FaultyStore {
         match self.gate("create") {
             Gate::Go => self.inner.create(id, record).await,
             Gate::Fail => Err(CreateError::Other(injected())),
-            Gate::Crash => std::future::pending().await,
+            Gate::Crash => self.stall().await,
         }
     }
     async fn update(&self, id: &SessionId, record: SessionRecordRef<'_>) -> Result<(), UpdateError> {
         match self.gate("update") {
             Gate::Go => self.inner.update(id, record).await,
             Gate::Fail => Err(UpdateError::Other(injected())),
-            Gate::Crash => std::future::pending().await,
+            Gate::Crash => self.stall().await,
         }
     }
     async fn update_ttl(&self, id: &SessionId, ttl: Duration) -> Result<(), UpdateTtlError> {
         match self.gate("update_ttl") {
             Gate::Go => self.inner.update_ttl(id, ttl).await,
             Gate::Fail => Err(UpdateTtlError::Other(injected())),
-            Gate::Crash => std::future::pending().await,
+            Gate::Crash => self.stall().await,
         }
     }
     async fn load(&self, id: &SessionId) -> Result<Option<SessionRecord>, LoadError> {
         match self.gate("load") {
             Gate::Go => self.inner.load(id).await,
             Gate::Fail => Err(LoadError::Other(injected())),
-            Gate::Crash => std::future::pending().await,
+            Gate::Crash => self.stall().await,
         }
     }
     async fn delete(&self, id: &SessionId) -> Result<(), DeleteError> {
         match self.gate("delete") {
             Gate::Go => self.inner.delete(id).await,
             Gate::Fail => Err(DeleteError::Other(injected())),
-            Gate::Crash => std::future::pending().await,
+            Gate::Crash => self.stall().await,
         }
     }
     async fn change_id(&self, old: &SessionId, new: &SessionId) -> Result<(), ChangeIdError> {
         match self.gate("change_id") {
             Gate::Go => self.inner.change_id(old, new).await,
             Gate::Fail => Err(ChangeIdError::Other(injected())),
-            Gate::Crash => std::future::pending().await,
+            Gate::Crash => self.stall().await,
         }
     }
     async fn delete_expired(&self, b: Option<NonZeroUsize>) -> Result<usize, DeleteExpiredError> {
@@ -310,6 +363,21 @@ fn block_on<F: Future>(fut: F) -> Option<F::Output> {
         }
     }
     None
+}
+
+/// SQLite arm: the store's futures wait for sqlx's worker thread, so they are driven by a real
+/// (single-threaded) runtime; a stalled store call is reported through `stalled`.
+fn block_on_with<F: Future>(rt: Option<&tokio::runtime::Runtime>, stalled: &tokio::sync::Notify, fut: F) -> Option<F::Output> {
+    match rt {
+        None => block_on(fut),
+        Some(rt) => rt.block_on(async {
+            tokio::select! {
+                biased;
+                v = fut => Some(v),
+                _ = stalled.notified() => None,
+            }
+        }),
+    }
 }
 
 fn to_map(h: &HashMap<Cow<'static, str>, Value>) -> Map {
@@ -427,7 +495,9 @@ struct World<'a> {
     crypto_now: Crypto,
     switched: bool,
     store: SessionStore,
-    peek: InMemorySessionStore,
+    peek: Inner,
+    rt: Option<tokio::runtime::Runtime>,
+    stalled: Arc<tokio::sync::Notify>,
     plan: Arc<Mutex<FaultPlan>>,
     model: Model,
     out: RunOut,
@@ -446,7 +516,7 @@ impl World<'_> {
         let now = seams::clock_ns();
         const PARK: i64 = 1_000_000_000;
         seams::set_clock_ns(PARK, 0);
-        let r = block_on(self.peek.load(&uuid)).and_then(|r| r.ok()).flatten();
+        let r = block_on_with(self.rt.as_ref(), &self.stalled, self.peek.load(&uuid)).and_then(|r| r.ok()).flatten();
         seams::set_clock_ns(now, self.cfg.tick_ns);
         r.map(|r| Rec { map: to_map(&r.state), deadline: PARK + r.ttl.as_nanos() as i64 })
     }
@@ -534,9 +604,31 @@ pub fn execute(script: &Script, _tape: &mut Tape, keep_log: bool) -> RunOut {
     seams::set_clock_ns(seams::EPOCH_S * 1_000_000_000, cfg.tick_ns);
     seams::reset_clock_reads();
     let start_ns = seams::clock_ns();
-    let inner = InMemorySessionStore::new();
+    let mut rt = None;
+    let mut pool = None;
+    let inner = if cfg.sqlite {
+        let r = tokio::runtime::Builder::new_current_thread().enable_time().rng_seed(tokio::runtime::RngSeed::from_bytes(b"pavex-verif")).build().expect("runtime");
+        let (st, p) = r.block_on(async {
+            use sqlx::sqlite::SqlitePoolOptions;
+            let p = match SqlitePoolOptions::new().max_connections(1).min_connections(0).connect("sqlite::memory:").await {
+                Ok(p) => p,
+                Err(e) => simcore::driver::harness_error(&format!("sessim: cannot open sqlite::memory: {e}")),
+            };
+            let st = pavex_session_sqlx::SqliteSessionStore::new(p.clone());
+            if let Err(e) = st.migrate().await {
+                simcore::driver::harness_error(&format!("sessim: sqlite migration failed: {e}"));
+            }
+            (st, p)
+        });
+        rt = Some(r);
+        pool = Some(p);
+        Inner::Sql(Arc::new(st))
+    } else {
+        Inner::Mem(InMemorySessionStore::new())
+    };
     let plan = Arc::new(Mutex::new(FaultPlan::default()));
-    let store = SessionStore::new(FaultyStore { inner: inner.clone(), plan: plan.clone() });
+    let stalled = Arc::new(tokio::sync::Notify::new());
+    let store = SessionStore::new(FaultyStore { inner: inner.clone(), plan: plan.clone(), stalled: stalled.clone() });
     let mut w = World {
         cfg,
         arm: &script.arm,
@@ -546,6 +638,8 @@ pub fn execute(script: &Script, _tape: &mut Tape, keep_log: bool) -> RunOut {
         switched: false,
         store,
         peek: inner,
+        rt,
+        stalled,
         plan,
         model: Model { durable: BTreeMap::new(), jar: Vec::new(), current: None, written: BTreeMap::new(), all_ids: BTreeSet::new(), next_val: 0 },
         out: RunOut::new(EventLog::new(keep_log)),
@@ -568,7 +662,17 @@ pub fn execute(script: &Script, _tape: &mut Tape, keep_log: bool) -> RunOut {
         let rshape = req_shape(cfg, req);
         run_request(&mut w, ri, req, &rshape);
     }
-    let mut out = w.out;
+    if cfg.sqlite {
+        w.out.count("backend_sqlite", 1);
+    }
+    let World { out, store, peek, rt, .. } = w;
+    drop(store);
+    drop(peek);
+    if let (Some(rt), Some(pool)) = (rt, pool) {
+        rt.block_on(pool.close());
+        drop(rt);
+    }
+    let mut out = out;
     out.sim_ns = (seams::clock_ns() - start_ns).max(0) as u64;
     out.count("clock_reads", seams::clock_reads());
     seams::clear_clock();
@@ -683,7 +787,9 @@ fn run_request(w: &mut World<'_>, ri: usize, req: &Req, shape: &str) {
             let _ = must_encrypt_model;
         };
         crate::quiet_panics();
-        match std::panic::catch_unwind(std::panic::AssertUnwindSafe(|| block_on(fut))) {
+        let rt = w.rt.as_ref();
+        let stalled = &w.stalled;
+        match std::panic::catch_unwind(std::panic::AssertUnwindSafe(|| block_on_with(rt, stalled, fut))) {
             Ok(r) => {
                 crashed = r.is_none();
                 panicked = false;
@@ -1346,7 +1452,16 @@ fn after_success(w: &mut World<'_>, ri: usize, req: &Req, rm: ReqModel, cookie: 
                 // that is the TTL doing its job — but if the record is still there it must hold
                 // exactly what the request ended with.
                 let phys = w.peek_phys(&new_id);
-                let ok = if written_now { actual.as_ref() == Some(m) } else { phys.as_ref().map(|r| &r.map == m && (actual.is_some() || r.deadline <= w.now())).unwrap_or(false) || (phys.is_none() && rm.presented.as_ref().and_then(|o| w.model.durable.get(o)).map(|r| r.deadline <= w.now()).unwrap_or(false)) };
+                // (SQLite arm: deadlines are whole seconds, so with a TTL of 1-2 s a record written at
+                // x.999 s can reach its deadline before this check runs; that is natural expiry as long
+                // as the record got the full TTL counted from the start of that second)
+                let t0_floor = t0.div_euclid(1_000_000_000) * 1_000_000_000;
+                let expired_by_granularity = w.cfg.sqlite
+                    && phys.as_ref().map(|r| &r.map == m && r.deadline <= w.now() && r.deadline >= t0_floor + w.cfg.ttl_ms as i64 * 1_000_000).unwrap_or(false);
+                if written_now && expired_by_granularity && actual.is_none() {
+                    w.out.count("sqlite_record_expired_within_its_first_second", 1);
+                }
+                let ok = if written_now { actual.as_ref() == Some(m) || expired_by_granularity } else { phys.as_ref().map(|r| &r.map == m && (actual.is_some() || r.deadline <= w.now())).unwrap_or(false) || (phys.is_none() && rm.presented.as_ref().and_then(|o| w.model.durable.get(o)).map(|r| r.deadline <= w.now()).unwrap_or(false)) };
                 if !ok {
                     w.out.violations.push(viol(
                         "C11",
@@ -1394,7 +1509,11 @@ fn after_success(w: &mut World<'_>, ri: usize, req: &Req, rm: ReqModel, cookie: 
     if !unknown {
         let before = rm.presented.as_ref().and_then(|o| w.model.durable.get(o)).map(|r| r.deadline);
         if let Some(after) = w.peek_phys(&new_id) {
-            let fresh = t0 + w.cfg.ttl_ms as i64 * 1_000_000;
+            // the SQLite store keeps deadlines in whole seconds (`unixepoch() + ttl`): a record written at
+            // x.7 s gets the deadline of one written at x.0 s. That is the granularity of the backend,
+            // not a lost TTL: the floor is taken at the start of the second the request started in.
+            let t0_floor = if w.cfg.sqlite { t0.div_euclid(1_000_000_000) * 1_000_000_000 } else { t0 };
+            let fresh = t0_floor + w.cfg.ttl_ms as i64 * 1_000_000;
             if after.deadline < fresh && Some(after.deadline) != before {
                 w.out.violations.push(viol(
                     "C11",
@@ -1558,6 +1677,7 @@ impl Sim for SesSim {
             percent_encode: !c12 || rng.chance(3, 4),
             tick_ns: *rng.pick(&[0, 1, 1_000, 1_000_000]),
             cookie_serde_omit: None,
+            sqlite: false,
         };
         let mut cfg = cfg;
         if c12 && rng.chance(1, 3) {
@@ -1629,6 +1749,15 @@ impl Sim for SesSim {
             reqs.push(Req { advance_ms, present, ops, fault, abandon });
         }
         let crypto_switch = if c12 && n >= 2 && rng.chance(1, 3) { Some((rng.usize(1, n - 1), rng.pick(&[Crypto::Sign, Crypto::Encrypt, Crypto::Sign, Crypto::None]).clone())) } else { None };
+        // last draw of the generator (so that the rest of the script is the same function of the seed
+        // as before this arm existed): 1 run in 16 keeps its records in SQLite. VERIF_SESSIM_BACKEND
+        // = sqlite | memory forces one backend (used for soak runs of the slower arm).
+        let mut cfg = cfg;
+        cfg.sqlite = match std::env::var("VERIF_SESSIM_BACKEND").as_deref() {
+            Ok("sqlite") => true,
+            Ok("memory") => false,
+            _ => rng.chance(1, 16),
+        };
         Script { arm: arm.to_string(), cfg, reqs, crypto_switch }
     }
 
